@@ -324,6 +324,21 @@ def processK (b : KBlock) : IO (Nat × Nat × Nat) := do   -- (experiments, diff
           | _, _ =>
             IO.println s!"XBAD {b.id} {hd} unparsable observation"
             diffs := diffs + 1
+        | [hd, crashS, _rinit, _afterInit, afterNext, inproc] =>
+          -- a single I/O error, execution continued (no model of this: judged only)
+          match parseObs (words crashS), parseObs (words afterNext), parseObs (words inproc) with
+          | some xo, some ro, some io =>
+            let key := cfg?.bind (·.key)
+            let selOf (o : Obs) : Option Nat := match o.ret with | .num k => if k = 0 then none else some k | _ => none
+            match firstFail (eioChecks env key preV offer settledPre (Judge.viewOfObs io) (selOf io) ++
+                             crashChecks env key preV (Judge.viewOfObs xo) offer settledPre (Judge.viewOfObs ro) (selOf ro)) with
+            | some why =>
+              IO.println s!"J C04 {b.id} step=0 side=impl {hd} {why}"
+              jf := jf + 1
+            | none => pure ()
+          | _, _, _ =>
+            IO.println s!"XBAD {b.id} {hd} unparsable observation"
+            diffs := diffs + 1
         | hd :: rest =>
           -- abnormal termination of the interrupted process or a failed recovery: a C04 violation by itself
           IO.println s!"J C04 {b.id} step=0 side=impl {hd} C04: {" | ".intercalate rest}"
